@@ -2,5 +2,5 @@
    prod, list, sumbool, sumor map to OCaml's; N, Z, positive stay Coq datatypes. *)
 Require Extraction.
 From Coq Require Import ExtrOcamlBasic.
-From Clikit Require Import Base.Prelude Model.Dispatcher.
-Extraction "model.ml" run_C12.
+From Clikit Require Import Base.Prelude Model.Dispatcher Model.Gate.
+Extraction "model.ml" run_C12 run_C10.
